@@ -377,9 +377,12 @@ def snapshot(e, eps=True):
     return d
 
 
-def resume_oracle(scn, eps=True):
+def resume_oracle(scn, eps=True, carry_live=False):
     """Property on real training: checkpoint after ops[:cut], resume in fresh objects, continue with
-    ops[cut:]; everything must equal the uninterrupted run."""
+    ops[cut:]; everything must equal the uninterrupted run.
+    carry_live: the user carries the optimizer's live (sigma, C) next to the checkpoint and writes them into the
+    fresh optimizer before load_checkpoint – the proviso of the Lean resume theorem, and the only protocol under which a run with
+    Exponential / Step schedulers can be resumed at all while finding D8 stands.  Then NOTHING may differ."""
     cfg, ops, cut = scn["cfg"], scn["ops"], scn["cut"]
     sig = f"{cfg['opt']}:{cfg['mech']}"
     a = R.RealEng(cfg)
@@ -391,6 +394,10 @@ def resume_oracle(scn, eps=True):
     blob, gstate = a.saved, a.gen_state
     # resumed
     b = R.RealEng(cfg)
+    if carry_live:
+        # fresh objects first (a Lambda scheduler's constructor already writes base * lambda(0) into the optimizer),
+        # then the carried live values, then load_checkpoint
+        b.carry_live = (at_save["live"][0], at_save["live"][1])
     b.saved, b.gen_state = blob, gstate
     r = b.do("load")
     if isinstance(r, str):
@@ -423,6 +430,9 @@ def resume_oracle(scn, eps=True):
         return None
     info.update(history_uninterrupted=fa["history"], history_resumed=fb["history"], eps_uninterrupted=fa.get("eps"), eps_resumed=fb.get("eps"),
                 param_diff=dp, optimizer_state_diff=do_, live_uninterrupted=fa["live"], live_resumed=fb["live"])
+    if carry_live:
+        return (f"C16:resume-trajectory:live-values-carried:{sig}", f"fresh optimizer given the live (sigma, C) = {at_save['live']} of the save point before load_checkpoint, schedulers {cfg['ns'][0]}/{cfg['cs'][0]}: "
+                f"live values after load {after_load['live']}; the resumed run differs from the uninterrupted one: history Δ{dh}, parameters Δ{dp}, live Δ{dl}, epsilon {'equal' if de == 0 else 'differs'}", info)
     if live_bad or dl != 0.0:
         if cfg.get("clipping") == "adaptive":
             return ("C16:resume-adaclip-live-clip",
@@ -502,6 +512,9 @@ def case_oracle(case):
             res = resume_oracle({"cfg": dict(cfg, kind=kind), "ops": plain, "cut": cut}, eps=False)
             if res and res[0] != "C16:resume-scheduler-live-value":
                 return (res[0], res[1], dict(res[2], scenario={"cfg": dict(cfg, kind=kind), "ops": plain, "cut": cut}))
+            res = resume_oracle({"cfg": dict(cfg, kind=kind), "ops": plain, "cut": cut}, eps=False, carry_live=True)
+            if res:
+                return (res[0], res[1], dict(res[2], scenario={"cfg": dict(cfg, kind=kind), "ops": plain, "cut": cut, "carry_live": True}))
     return None
 
 
@@ -581,6 +594,11 @@ def run(ctx):
             ctx.count("search:resume:" + scn["cfg"]["mech"] + ":" + scn["cfg"]["opt"] + (":adaptive" if scn["cfg"].get("clipping") else ""))
             if res:
                 ctx.property_failure(res[0], res[1], dict(res[2], failing_input=scn))
+            if not scn["cfg"].get("clipping") and {scn["cfg"]["ns"][0], scn["cfg"]["cs"][0]} != {"none"}:
+                res = resume_oracle(scn, eps=False, carry_live=True)
+                ctx.count("search:resume:live-values-carried")
+                if res:
+                    ctx.property_failure(res[0], res[1], dict(res[2], failing_input=dict(scn, carry_live=True)))
         for mech in MECHS:
             for orc in (reject_oracle, alias_oracle, regen_oracle):
                 cfg = {"mech": mech, "opt": "sgdm", "sigma0": 1.0, "c0": 1.0, "nb": 10, "ns": ("none",), "cs": ("none",), "kind": "token", "seed": 3}
@@ -599,9 +617,9 @@ def replay(ctx, rp):
             res = {"lambda_pickle": lambda: lambda_pickle_oracle(), "reject_oracle": lambda: reject_oracle(fi["cfg"]),
                    "alias_oracle": lambda: alias_oracle(fi["cfg"]), "regen_oracle": lambda: regen_oracle(fi["cfg"])}[fi["oracle"]]()
         elif "scenario" in rp:
-            res = resume_oracle(rp["scenario"], eps=False)
+            res = resume_oracle(rp["scenario"], eps=False, carry_live=bool(rp["scenario"].get("carry_live")))
         elif "cut" in fi:
-            res = resume_oracle(fi)
+            res = resume_oracle(fi, eps=not fi.get("carry_live"), carry_live=bool(fi.get("carry_live")))
         else:
             res = case_oracle(fi)
         if res:
